@@ -226,6 +226,9 @@ func RelPaths(r *rand.Rand, root ref.V, paths []Path, max int) []Path {
 		case ref.KString:
 			if len([]rune(p.Val.S)) > 0 {
 				cands = append(cands, p)
+				if len(p.Val.S) != len([]rune(p.Val.S)) {
+					cands = append(cands, p, p, p) // (multi-byte content: three more tickets)
+				}
 			}
 		case ref.KBytes:
 			if len(p.Val.Y) > 0 {
